@@ -23,24 +23,21 @@ def run_one(m, tier, keep=False):
     try:
         shutil.copytree("/repo/petl", os.path.join(d, "petl"),
                         ignore=shutil.ignore_patterns("__pycache__", "test"))
-        p = os.path.join(d, "petl", m["file"])
-        s = open(p).read()
-        if "patch" in m:
-            r = subprocess.run(["patch", "-p1", "-d", d], input=m["patch"], text=True, capture_output=True)
-            if r.returncode:
-                return m["name"], "PATCH-FAILED", r.stdout + r.stderr
-        else:
-            n = s.count(m["old"])
-            if n == 0 or (n > 1 and "nth" not in m):
-                return m["name"], "BAD-MUTANT", "old text occurs %d times" % n
-            if "nth" in m:
-                parts = s.split(m["old"])
-                k = m["nth"]
+        edits = m.get("edits") or [dict(file=m["file"], old=m["old"], new=m["new"], **({"nth": m["nth"]} if "nth" in m else {}))]
+        for ed in edits:
+            p = os.path.join(d, "petl", ed["file"])
+            s = open(p).read()
+            n = s.count(ed["old"])
+            if n == 0 or (n > 1 and "nth" not in ed):
+                return m["name"], "BAD-MUTANT", "old text occurs %d times in %s" % (n, ed["file"])
+            if "nth" in ed:
+                parts = s.split(ed["old"])
+                k = ed["nth"]
                 if k >= n:
                     return m["name"], "BAD-MUTANT", "nth=%d but old text occurs %d times" % (k, n)
-                s = m["old"].join(parts[:k + 1]) + m["new"] + m["old"].join(parts[k + 1:])
+                s = ed["old"].join(parts[:k + 1]) + ed["new"] + ed["old"].join(parts[k + 1:])
             else:
-                s = s.replace(m["old"], m["new"])
+                s = s.replace(ed["old"], ed["new"])
             open(p, "w").write(s)
         out = []
         for prop in m["props"]:
